@@ -16,8 +16,23 @@ PLACEMENTS = [
 ]
 
 
+def const_cond_family():
+    """a ?: with a CONSTANT condition whose dead and live arms are value-producing operations, followed by a further one in the
+    same full expression (temporary numbering must not collide; the dead arm's operation must not happen)"""
+    hyb = {"post": ("n++", "m++", "k++"), "call": ("clz32(n)", "clo32(m)", "revbit32(k)"), "stmt": ("({ n = n + 1; n; })", "({ m = m + 2; m; })", "({ k = k + 3; k; })")}
+    out = []
+    for c in ("0", "1", "0x0LL", "7u"):
+        for a in hyb:
+            for b in hyb:
+                for d in hyb:
+                    out.append(f"{{ int32_t n = RsV; int32_t m = RtV; int32_t k = RuV; RdV = ({c} ? {hyb[a][0]} : {hyb[b][1]}) + {hyb[d][2]}; ReV = n + m + k; }}")
+    return out
+
+
 def programs(tier, rnd: random.Random):
     progs = list(PLACEMENTS)
+    fam = const_cond_family()
+    progs += fam if tier != "quick" else rnd.sample(fam, 36)
     g = gen_prog.Gen(rnd)
     n = 200 if tier == "quick" else 3000
     for _ in range(n):
